@@ -268,6 +268,8 @@ def evaluate(e, env, depth=0):
         x = evaluate(e.a, env, depth + 1)
         if isinstance(x, tuple) and x[0] == "ovf" and e.b in ("0",):
             return x[1]
+        if isinstance(x, tuple) and x[0] == "opt" and x[1] == "Some" and e.b == "Some.0" and len(x) > 2 and x[2] is not None:
+            return x[2]
         return UNK
     return UNK
 
@@ -284,6 +286,14 @@ def eval_call(c, env, depth):
             return evaluate(args[i], env, depth + 1)
         return UNK
 
+    if p.startswith("core::num::<impl ") and p.endswith(("::checked_sub", "::checked_add")):
+        x, y = arg(0), arg(1)
+        if isinstance(x, int) and isinstance(y, int) and not isinstance(x, bool) and not isinstance(y, bool):
+            v = x - y if p.endswith("sub") else x + y
+            if v < 0 and "impl u" in p:
+                return ("opt", "None", None)
+            return ("opt", "Some", v)
+        return UNK
     if p == "std::ops::Try::branch":
         x = arg(0)
         if _is(x, "res"):
@@ -460,27 +470,35 @@ def decisive_edges(fn, atom_call, val_good, val_bad):
 
 def result_kind_of_ret(fn):
     """Classify every definition of the return place `_0` of a Result-returning function:
-    list of (bb, kind, expr) with kind in {'ok','err','expr'}."""
+    list of (bb, kind, expr) with kind in {'ok','err','expr'}.  A definition that merely moves
+    another whole local that has several definitions (`_0 = move r` after `let r = match .. {..}`,
+    or the return place of an inlined helper) is classified at each of those definitions."""
     out = []
-    for b, kind, payload in def_sites(fn, 0):
-        if kind == "call":
-            c = payload
-            if c.path == "std::ops::FromResidual::from_residual":
-                out.append((b, "err", E("call", c)))
+
+    def visit(local, seen):
+        for b, kind, payload in def_sites(fn, local):
+            if kind == "call":
+                c = payload
+                if c.path == "std::ops::FromResidual::from_residual":
+                    out.append((b, "err", E("call", c)))
+                else:
+                    out.append((b, "expr", E("call", c)))
             else:
-                out.append((b, "expr", E("call", c)))
-        else:
-            rv = payload["rv"]
-            if rv["k"] == "agg" and rv.get("path") == "std::result::Result":
-                out.append((b, "ok" if rv["variant"] == "Ok" else "err",
-                            expr_of_local(fn, 0) if False else E("agg", rv["path"], rv["variant"], None)))
-            elif rv["k"] == "agg" and rv.get("path") == "std::option::Option":
-                out.append((b, "ok" if rv["variant"] == "Some" else "err",
-                            E("agg", rv["path"], rv["variant"], None)))
-            elif rv["k"] == "use":
-                out.append((b, "expr", expr_of_operand(fn, rv["x"], 1)))
-            else:
-                out.append((b, "expr", E("unknown")))
+                rv = payload["rv"]
+                if rv["k"] == "agg" and rv.get("path") == "std::result::Result":
+                    out.append((b, "ok" if rv["variant"] == "Ok" else "err", E("agg", rv["path"], rv["variant"], None)))
+                elif rv["k"] == "agg" and rv.get("path") == "std::option::Option":
+                    out.append((b, "ok" if rv["variant"] == "Some" else "err", E("agg", rv["path"], rv["variant"], None)))
+                elif rv["k"] == "use":
+                    x = rv["x"]
+                    if x.get("k") in ("copy", "move") and not x["p"] and x["l"] not in seen and x["l"] > fn.argc and len(seen) < 8 \
+                            and len(def_sites(fn, x["l"])) > 1:
+                        visit(x["l"], seen | {x["l"]})
+                    else:
+                        out.append((b, "expr", expr_of_operand(fn, x, 1)))
+                else:
+                    out.append((b, "expr", E("unknown")))
+    visit(0, frozenset([0]))
     return out
 
 
